@@ -2,6 +2,7 @@ package props
 
 import (
 	"math/rand"
+	"strings"
 	"testing"
 
 	"verifharness/hist"
@@ -22,7 +23,7 @@ func TestC12OracleAcceptsImplementation(t *testing.T) {
 			t.Fatalf("case %d (%s) %s: %s", i, c.Stream, c.Hist.Sexp(), m)
 		}
 	}
-	for _, s := range []string{"string-targeted", "string-1byte", "string-2byte", "string-random", "rune-boundary", "rune-below-0x100", "rune-random", "byte", "regression"} {
+	for _, s := range []string{"string-targeted", "string-1byte", "string-2byte", "string-random", "rune-boundary", "rune-below-0x100", "rune-random", "byte", "regression", "concurrent"} {
 		if streams[s] == 0 {
 			t.Errorf("stream %s not generated", s)
 		}
@@ -150,5 +151,113 @@ func TestC12Domain(t *testing.T) {
 	}
 	if c12PlainString(`a"`) || c12PlainString("\x7f") || !c12PlainString("abc 'x' ~") {
 		t.Error("c12PlainString")
+	}
+}
+
+// The stream concurrent: the job set really runs on goroutines, the oracle and the comparison
+// judge EVERY output of every goroutine (not only the one handed on), and reject what a
+// shared scratch buffer produces: foreign bytes that keep the literal well-formed, a broken
+// literal, an output that differs between rounds.
+func TestC12ConcurrentOracle(t *testing.T) {
+	p := c12{}
+	mk := func() (*Case, *c12Conc, []hist.Obs) {
+		jobs := []c12Job{
+			{Shape: c1xBatchFile, NoFormat: true, Lits: []c1xLit{c12Str("aaaa\t\"0\""), c12Str("a\nb")}},
+			{Shape: c12CallPlain, Lits: []c1xLit{c12Str("bbbb\t\"1\""), c12Str("`"), c12Str("")}},
+			{Shape: c1xStmtPlain, Lits: []c1xLit{c12Rune('\'')}},
+			{Shape: c1xFuncFile, Lits: []c1xLit{c12Byte(0), c12Byte(255)}},
+		}
+		c := c12ConcCase(jobs, 25, "test")
+		got := hist.NewWorld().Exec(c.Hist)
+		return c, c.Meta["conc"].(*c12Conc), got
+	}
+	c, x, got := mk()
+	if len(got) != 4 || !c.NonTrivial {
+		t.Fatalf("%d observations, nontrivial %v", len(got), c.NonTrivial)
+	}
+	total := 0
+	for j := range x.outs {
+		for _, o := range x.outs[j] {
+			total += o.Count
+		}
+	}
+	if total != 4*25 {
+		t.Fatalf("%d outputs recorded for 4 jobs x 25 rounds", total)
+	}
+	if m := p.Oracle(c, got); m != "" {
+		t.Fatalf("the oracle rejects the implementation: %s", m)
+	}
+	if got[0].Out != "package p\n\n\nvar _ = \"aaaa\\t\\\"0\\\"\"\nvar _ = \"a\\nb\"" || got[1].Out != "f(\"bbbb\\t\\\"1\\\"\", \"`\", \"\")" {
+		t.Fatalf("outputs %q %q", got[0].Out, got[1].Out)
+	}
+	exp := append([]hist.Obs(nil), got...)
+	if m := p.Compare(c, exp, got); m != "" {
+		t.Fatalf("compare rejects equal observations: %s", m)
+	}
+	// executing the case again runs the goroutines again
+	x.outs = nil
+	if got2 := hist.NewWorld().Exec(c.Hist); len(got2) != 4 || len(x.outs) != 4 {
+		t.Fatal("re-execution did not re-run the job set")
+	}
+	// a later round of job 0 showed bytes of job 1 (well-formed, wrong value)
+	inject := func(j int, out string) (*Case, []hist.Obs, []hist.Obs) {
+		c, x, got := mk()
+		x.outs[j][0].Count--
+		x.outs[j] = append(x.outs[j], c12ConcOut{Obs: hist.Obs{Kind: "write", Out: out, Writes: 1}, Round: 17, Count: 1})
+		return c, append([]hist.Obs(nil), got...), got
+	}
+	for name, bad := range map[string]string{
+		"foreign bytes":  "package p\n\n\nvar _ = \"bbaa\\t\\\"0\\\"\"\nvar _ = \"a\\nb\"\n",
+		"broken literal": "package p\n\n\nvar _ = \"aaaa\\t\\\"0\\\"\nvar _ = \"a\\nb\"\n",
+		"leaked code":    "package p\n\n\nvar _ = \"aaaa\"; var y = \"0\"\nvar _ = \"a\\nb\"\n",
+	} {
+		c, exp, got := inject(0, bad)
+		m := p.Oracle(c, got)
+		if m == "" || !strings.Contains(m, "round 18") {
+			t.Errorf("%s in a later round: oracle says %q", name, m)
+		}
+		if m := p.Compare(c, exp, got); m == "" || !strings.Contains(m, "round 18") {
+			t.Errorf("%s in a later round: compare says %q", name, m)
+		}
+	}
+	// another spelling of the same literals in one round: every output is right, but they differ
+	c, _, got = inject(1, "f(\"bbbb\\t\\\"1\\\"\", \"\\x60\", \"\")")
+	if m := p.Oracle(c, got); !strings.Contains(m, "renders differently") {
+		t.Errorf("differing outputs: oracle says %q", m)
+	}
+	// a rune and a byte job
+	c, _, got = inject(2, "x := '\"'\ny")
+	if m := p.Oracle(c, got); !strings.Contains(m, "rune literal") {
+		t.Errorf("wrong rune: oracle says %q", m)
+	}
+	c, _, got = inject(3, "package p\n\nfunc f() {\n\tx := byte(0x0)\n\ty(a, byte(0xfe), b)\n}\n")
+	if m := p.Oracle(c, got); m == "" {
+		t.Error("wrong byte accepted")
+	}
+	// a goroutine whose render failed
+	c, x, got = mk()
+	x.outs[1] = append(x.outs[1], c12ConcOut{Obs: hist.Obs{Kind: "fmterr", Out: "f (\"bb"}, Round: 3, Count: 1})
+	if m := p.Oracle(c, got); !strings.Contains(m, "render did not succeed") {
+		t.Errorf("failed render: oracle says %q", m)
+	}
+	// generated job sets: accepted, non-trivial, between 2 and 16 goroutines
+	for i, c := range c12ConcGenerate(rand.New(rand.NewSource(3)), "quick") {
+		x := c.Meta["conc"].(*c12Conc)
+		if len(x.Jobs) < 2 || len(x.Jobs) > 16 || x.Rounds < 2 {
+			t.Fatalf("job set %d: %d jobs, %d rounds", i, len(x.Jobs), x.Rounds)
+		}
+		if i%4 == 0 {
+			x.Rounds = 10
+			if m := p.Oracle(c, hist.NewWorld().Exec(c.Hist)); m != "" {
+				t.Fatalf("job set %d: %s", i, m)
+			}
+			for _, cand := range p.Shrink(c) {
+				cx := cand.Meta["conc"].(*c12Conc)
+				cx.Rounds = 3
+				if m := p.Oracle(cand, hist.NewWorld().Exec(cand.Hist)); m != "" || len(cx.Jobs) < 2 {
+					t.Fatalf("shrunk job set of %d: %d jobs, %s", i, len(cx.Jobs), m)
+				}
+			}
+		}
 	}
 }
